@@ -186,6 +186,9 @@ def po_open(case, built=None):
     kw = {}
     if case["sel"] is not None:
         kw["events"] = tuple(case["sel"]) if isinstance(case["sel"], list) else case["sel"]
+        if case.get("numpy_selector") and isinstance(case["sel"], int):
+            import numpy as np
+            kw["events"] = np.int64(case["sel"])         # (replay-only variant, see po_oracle)
     if case["filt"]:
         kw["filters"] = po_filter_arg(case["filt"])
     with warnings.catch_warnings():
@@ -241,16 +244,28 @@ def po_oracle(case):
     if not idx or min(idx) < 0 or max(idx) >= n or (isinstance(sel, list) and sel[0] > sel[1]):
         return None                                    # not a valid selector: nothing is claimed
     built = po_build(events)
+    orig = [list(ev) for ev in built]                    # the input list as it is handed over (the very objects, per event)
+    raw = {id(p): p.data_.copy() for ev in built for p in ev}
+    def expected(ix):
+        if case["filt"]:
+            return [[orig[i][events[i].index(s_)] for s_ in po_expected_event(case["filt"], events[i])] for i in ix]
+        return [list(orig[i]) for i in ix]
+    # the same list has a history: a complete storer (same filters) was built from it just before and is still alive
+    try:
+        first = po_open(dict(case, sel=None), built)
+    except Exception as e:
+        return f"ParticleObjectStorer(filters={case['filt']}) raises {type(e).__name__}: {e}"[:300]
     try:
         o = po_open(case, built)
     except Exception as e:
+        if case.get("numpy_selector"):
+            return None      # a numpy integer selector may be refused; if it is accepted it has to mean event k (the generators
+                             # do not produce this variant - the storer accepts it and holds ALL events, reported, not decided)
         return f"ParticleObjectStorer(events={sel}, filters={case['filt']}) raises {type(e).__name__}: {e}"[:300]
-    want = [[p for p in built[i]] for i in idx]
-    if case["filt"]:
-        want = [[built[i][events[i].index(s_)] for s_ in po_expected_event(case["filt"], events[i])] for i in idx]
+    want = expected(idx)
     got = o.particle_objects_list()
     if len(got) != len(want) or any(len(a) != len(b) or any(x is not y for x, y in zip(a, b)) for a, b in zip(got, want)):
-        return (f"ParticleObjectStorer(events={sel}, filters={case['filt']}): holds particles "
+        return (f"ParticleObjectStorer(events={'np.int64(%d)' % sel if case.get('numpy_selector') and isinstance(sel, int) else sel}, filters={case['filt']}): holds particles "
                 f"{[[int(p.ID) for p in e] for e in got]}, the selected events (filtered one by one) are "
                 f"{[[int(p.ID) for p in e] for e in want]}")
     if o.num_events() != len(want):
@@ -263,6 +278,16 @@ def po_oracle(case):
         o.particle_list()
     except Exception as e:
         return f"events={sel} filters={case['filt']}: particle_list() raises {type(e).__name__}: {e}"[:300]
+    # selecting neither changes a particle (every data_ slot as it was set) nor the storer built from the same list before
+    for p in (p for e in got for p in e):
+        if not np.array_equal(p.data_, raw[id(p)], equal_nan=True):
+            return f"events={sel} filters={case['filt']}: particle {int(raw[id(p)][11])} was modified by the construction"
+    hf, wf = first.particle_objects_list(), expected(list(range(n)))
+    if len(hf) != len(wf) or any(len(a) != len(b) or any(x is not y for x, y in zip(a, b)) for a, b in zip(hf, wf)):
+        return (f"events={sel} filters={case['filt']}: the complete storer built from the same list before now holds "
+                f"{[[int(p.ID) for p in e] for e in hf]} instead of {[[int(p.ID) for p in e] for e in wf]}")
+    if any(len(a) != len(b) or any(x is not y for x, y in zip(a, b)) for a, b in zip(built, orig)) or len(built) != len(orig):
+        return f"events={sel} filters={case['filt']}: the list handed to the constructor was changed in place"
     return None
 
 
@@ -346,6 +371,10 @@ def oracle(case):
         msg = oracle_single_is_range(case, tmp)
         if msg:
             return msg
+    if isinstance(sel, int) and not case.get("filt"):
+        msg = oracle_numpy_selector(case, tmp)
+        if msg:
+            return msg
     if sel is not None:
         msg = oracle_history(case, tmp)
         if msg:
@@ -393,6 +422,23 @@ def oracle_single_is_range(case, tmp):
                         f"{json.dumps(snaps[0].get(key))[:120]} vs {json.dumps(snaps[1].get(key))[:120]}")
     if isinstance(snaps[0].get("particle_list"), str):
         return f"events={k}: particle_list() {snaps[0]['particle_list']}"
+    return None
+
+
+def oracle_numpy_selector(case, tmp):
+    """a selector given as a numpy integer (what np.arange / an array element hands over) is either refused with an exception or
+    means the same event as the plain int - never silently something else"""
+    import numpy as np
+    k = case["sel"]
+    try:
+        got = _snapshot(_open(case, tmp, events=np.int64(k)))
+    except Exception:
+        return None
+    want = _snapshot(_open(case, tmp, events=k))
+    for key in sorted(set(got) | set(want)):
+        if json.dumps(got.get(key)) != json.dumps(want.get(key)):
+            return (f"events=np.int64({k}) is accepted but differs from events={k} in {key}: "
+                    f"{json.dumps(got.get(key))[:140]} vs {json.dumps(want.get(key))[:140]}")
     return None
 
 
@@ -475,6 +521,36 @@ def oracle_oob(case, tmp):
     return f"selection {sel} reaches past the last event but an object with {o.num_events()} events was returned"
 
 
+def row_charge(case, row):
+    """the charge the file gives one particle line (Oscar family: its charge column; JETSCAPE: the PDG charge of its code) as an
+    exact number, or None when the file does not determine it (no charge column / a code PDGID does not know)"""
+    if case["kind"] == "jet":
+        return J.pdg_charge(int(row[1]))
+    cols = G.doc_cols(case["doc"])
+    if "charge" not in cols or cols.index("charge") >= len(row):
+        return None
+    return int(row[cols.index("charge")])
+
+
+def expected_filtered(case, idx):
+    """the token rows of the selected events `idx` after the named constructor filter, applied event by event as documented
+    (charged_particles keeps the lines with a non-zero charge; multiplicity_cut (2, None) keeps an event of at least two
+    lines and empties any other), computed from the document alone; None when a charge is not determined by the file"""
+    out = []
+    for i in idx:
+        rows = list(case["doc"]["events"][i]["rows"])
+        for name in filt_name(case["filt"]).split("+"):
+            if name == "charged":
+                ch = [row_charge(case, r) for r in rows]
+                if any(c is None for c in ch):
+                    return None
+                rows = [r for r, c in zip(rows, ch) if c != 0]
+            else:
+                rows = rows if len(rows) >= 2 else []
+        out.append(rows)
+    return out
+
+
 def oracle_filtered(case, tmp):
     """select, then filter: constructor filters= together with events= equals selecting and calling the method"""
     import numpy as np
@@ -493,6 +569,23 @@ def oracle_filtered(case, tmp):
     eb = [[p.data_.tolist() for p in e] for e in b.particle_objects_list() if len(e)]
     if json.dumps(ea) != json.dumps(eb):
         return f"events={sel} + filters=: particles differ from select-then-filter"
+    # ... and against the document itself (neither the unfiltered selection nor the filter methods of the storer are taken on
+    # trust): the non-empty events held are the selected events' lines the filter keeps, in file order
+    idx = list(range(n)) if sel is None else ([sel] if isinstance(sel, int) else list(range(sel[0], sel[1] + 1)))
+    exp = expected_filtered(case, idx)
+    if exp is not None:
+        exp_ne = [(i, rows) for i, rows in zip(idx, exp) if rows]
+        held_ne = [e for e in a.particle_objects_list() if len(e)]
+        if len(held_ne) != len(exp_ne):
+            return (f"events={sel} + filters={filt_name(case['filt'])}: {len(held_ne)} non-empty events held, the file's selected events "
+                    f"keep particles in {len(exp_ne)} events ({[i for i, _ in exp_ne]})")
+        for ev, (i, rows) in zip(held_ne, exp_ne):
+            if case["kind"] == "jet":
+                msg = J.check_rows(ev, rows, i + 1)
+            else:
+                msg = G.check_rows(ev, rows, G.doc_cols(case["doc"]), i)
+            if msg:
+                return f"events={sel} + filters={filt_name(case['filt'])}: after the filter, {msg}"
     ca = np.asarray(a.num_output_per_event())
     sizes = [len(e) for e in a.particle_objects_list()]
     if a.particle_objects_list() == [[]] and a.num_events() == 0:
@@ -505,7 +598,7 @@ def oracle_filtered(case, tmp):
         lo = 0 if sel is None else (sel if isinstance(sel, int) else sel[0])
         base = lo + (1 if case["kind"] == "jet" else 0)
         want_labels = list(range(base, base + len(sizes)))
-        if len(_open(case, tmp, **kw).particle_objects_list()) == len(sizes) and ca[:, 0].tolist() != want_labels:
+        if len(idx) == len(sizes) and ca[:, 0].tolist() != want_labels:
             return f"events={sel} + filters=: event labels {ca[:, 0].tolist()}, the selected events are {want_labels}"
     if a.num_events() != len(sizes):
         return f"events={sel} + filters=: num_events() = {a.num_events()} but {len(sizes)} events are held"
@@ -515,7 +608,7 @@ def oracle_filtered(case, tmp):
         lo_ = 0 if sel is None else (sel if isinstance(sel, int) else sel[0])
         hi_ = n - 1 if sel is None else (sel if isinstance(sel, int) else sel[1])
         if len(sizes) == hi_ - lo_ + 1:
-            want_b = [float(ev["b"]) for ev in case["doc"]["events"][lo_:hi_ + 1]]
+            want_b = [G.nearest_double(ev["b"]) for ev in case["doc"]["events"][lo_:hi_ + 1]]
             try:
                 got_b = [float(x) for x in a.impact_parameters()]
             except Exception as e:
@@ -523,9 +616,9 @@ def oracle_filtered(case, tmp):
             if got_b != want_b:
                 return f"events={sel} + filters=: impact_parameters() = {got_b}, the selected events' own are {want_b}"
     if case["kind"] == "jet":
-        full = _open(case, tmp)
-        if tuple(a.get_sigmaGen()) != tuple(full.get_sigmaGen()):
-            return f"events={sel} + filters=: get_sigmaGen() = {a.get_sigmaGen()}, the unrestricted load has {full.get_sigmaGen()}"
+        want_sg = (G.nearest_double(case["doc"]["sigma"]), G.nearest_double(case["doc"]["sigerr"]))
+        if tuple(float(x) for x in a.get_sigmaGen()) != want_sg:
+            return f"events={sel} + filters=: get_sigmaGen() = {a.get_sigmaGen()}, the file's trailer states {want_sg}"
     try:
         a.particle_list()
     except Exception as e:
